@@ -538,6 +538,53 @@ def omdF (fl : Rat → Rat) (fuel : Nat) (ps etas losses : List Rat) : Option (L
       let total := pySum fl res.1.2
       some (res.1.2.map (fun p => fl (p / total)), res.2)
 
+/-! ### Phase 5: the rest of `CorralLearner.learn` as the implementation computes it
+
+`loss = 1-reward`, `instant_loss = [loss/probability * (base_action==action) …]`, the p̄-smoothing
+`(1-self._gamma)*p + self._gamma*1/len(self._base_lrns)` and the ρ/η schedule, every operation through
+`fl`.  With `fl = flDouble` a whole history of `learn` calls reproduces `_ps`, `_p_bars`, `_etas`,
+`_rhos` of the real learner bit for bit (driver op `corral_runF`). -/
+
+/-- `(1-self._gamma)*p + self._gamma*1/len(self._base_lrns)`: five roundings, three deep -/
+def pbarF (fl : Rat → Rat) (gamma : Rat) (M : Nat) (p : Rat) : Rat :=
+  fl (fl (fl (1 - gamma) * p) + fl (fl (gamma * 1) / (M : Rat)))
+
+/-- `self._p_bars = [ … for p in self._ps ]` -/
+def smoothF (fl : Rat → Rat) (gamma : Rat) (M : Nat) (ps : List Rat) : List Rat := ps.map (pbarF fl gamma M)
+
+/-- `loss = 1-reward; instant_loss = [ loss/probability * (base_action==action) … ]` -/
+def corralLossesF (fl : Rat → Rat) (bacts : List Act) (a : Act) (r p : Rat) : List Rat :=
+  bacts.map (fun b => fl (fl (fl (1 - r) / p) * (if b = a then 1 else 0)))
+
+/-- `if 1/self._p_bars[i] > self._rhos[i]: self._rhos[i] = 2/self._p_bars[i]; self._etas[i] *= self._beta` -/
+def etaRhoF (fl : Rat → Rat) (beta : Rat) : List Rat → List Rat → List Rat → List Rat × List Rat
+  | pb :: pbs, e :: es, rh :: rhs =>
+    let (es', rhs') := etaRhoF fl beta pbs es rhs
+    if rh < fl (1 / pb) then (fl (e * beta) :: es', fl (2 / pb) :: rhs') else (e :: es', rh :: rhs')
+  | _, es, rhs => (es, rhs)
+
+/-- the state part of `CorralLearner.learn` in floats (the Bool: did the root search leave by its own exits) -/
+def Corral.learnF (fl : Rat → Rat) (fuel : Nat) (c : Corral) (bacts : List Act) (a : Act) (r p : Rat) :
+    Except PErr (Corral × Bool) :=
+  if !(decide (0 ≤ r) && decide (r ≤ 1)) then .error .assertion
+  else if p = 0 then .error .zeroDivision
+  else
+    match omdF fl fuel c.ps c.etas (corralLossesF fl bacts a r p) with
+    | none => .error .valueError
+    | some (ps, halted) =>
+      let pbars := smoothF fl c.gamma c.ps.length ps
+      let er := etaRhoF fl c.beta pbars c.etas c.rhos
+      .ok ({ c with ps := ps, pbars := pbars, etas := er.1, rhos := er.2 }, halted)
+
+/-- a whole history of `learn` calls `(base actions, played action, reward, probability)`; the states
+after each call, up to and including the first exception -/
+def runCF (fl : Rat → Rat) (fuel : Nat) : Corral → List (List Act × Act × Rat × Rat) → List (Except PErr (Corral × Bool))
+  | _, [] => []
+  | c, (bacts, a, r, p) :: ops =>
+    match c.learnF fl fuel bacts a r p with
+    | .error e => [.error e]
+    | .ok (c', h) => .ok (c', h) :: runCF fl fuel c' ops
+
 /-! ### nested compositions: Corral over base learners that may themselves be Corrals
 
 `Base` is what Corral uses of a base learner.  A base learner that needs the kwargs of its own
@@ -641,6 +688,48 @@ def sumBase (B1 B2 : Base) : Base where
 def tower (fl : Rat → Rat) : Nat → Base
   | 0 => leafBase fl
   | n + 1 => sumBase (leafBase fl) (corralOver fl (tower fl n))
+
+/-! ### Phase 5: which feedback a nested composition accepts, as a decidable recursive predicate
+
+`learn(action, reward, probability)` of a tower succeeds exactly when every Corral at or below gets
+(after its Misguided wrappers) a reward in [0,1] and a non-zero probability.  Importance mode hands
+base learner j `reward·1[A_j = action]/probability`, off-policy mode passes the reward through. -/
+
+def allAcceptB {σ : Type} (acc : σ → Act → Rat → Rat → Bool) : List σ → List (Act × Rat × Rat) → Bool
+  | s :: ss, (a, r, p) :: fs => acc s a r p && allAcceptB acc ss fs
+  | _, _ => true
+
+def acceptsB (fl : Rat → Rat) : (n : Nat) → (tower fl n).σ → Act → Rat → Rat → Bool
+  | 0 => fun _ _ _ _ => true
+  | n + 1 => fun (s : Leaf ⊕ CNode (tower fl n).σ) a r p =>
+    match s with
+    | .inl _ => true
+    | .inr s =>
+      let r' := misguide fl s.mis r
+      decide (0 ≤ r') && decide (r' ≤ 1) && !decide (p = 0) &&
+        allAcceptB (acceptsB fl n) s.bases (corralFeedback s.c.importance s.lastActs s.lastProbs a r' p)
+
+/-! ### Phase 5: arithmetic expressions of the source as small programs (translator target)
+
+`harness/props/c16.py` translates the update expressions of bandit.py / corral.py with Python's `ast`
+into `Ex` terms (`Generated/C16Exprs.lean`); `Ex.evalF` is Python's float evaluation of such an
+expression: every `+ - * /` is rounded (`fl`), int literals are exact, `addI` is `+` between ints. -/
+
+inductive Ex
+  | lit (n : Nat)
+  | var (i : Nat)
+  | add (a b : Ex) | sub (a b : Ex) | mul (a b : Ex) | div (a b : Ex)
+  | addI (a b : Ex)
+deriving Repr, DecidableEq
+
+def Ex.evalF (fl : Rat → Rat) (env : List Rat) : Ex → Rat
+  | .lit n => (n : Rat)
+  | .var i => env.getD i 0
+  | .add a b => fl (a.evalF fl env + b.evalF fl env)
+  | .sub a b => fl (a.evalF fl env - b.evalF fl env)
+  | .mul a b => fl (a.evalF fl env * b.evalF fl env)
+  | .div a b => fl (a.evalF fl env / b.evalF fl env)
+  | .addI a b => a.evalF fl env + b.evalF fl env
 
 /-! ### action identity: `make_hashable` and Python `==` on the offered objects
 
